@@ -8,8 +8,8 @@ place() {
   pkgline=$(grep -m1 '^package ' $S/demo_test.go 2>/dev/null | awk '{print $2}')
   case "$id" in
     C05-b|C06-b|C07-b|C08-b|C09-b|C17-b) cp -r $S SEED; rm -f SEED/patch.diff; echo SEEDDIR;;
-    C20-c) cp $S/demo_test.go cmd/protodump/zz_seed_demo_test.go; echo ./cmd/protodump/;;
-    *-c) cp -r $S SEED; rm -f SEED/patch.diff SEED/meta.json; echo SEEDDIR;;
+    C20-c|C20-d) cp $S/demo_test.go cmd/protodump/zz_seed_demo_test.go; echo ./cmd/protodump/;;
+    *-c|*-d) cp -r $S SEED; rm -f SEED/patch.diff SEED/meta.json; echo SEEDDIR;;
     *) case "$pkgline" in
          csproto_test) cp $S/demo_test.go ./zz_seed_demo_test.go; echo .;;
          lazyproto_test) cp $S/demo_test.go lazyproto/zz_seed_demo_test.go; echo ./lazyproto/;;
@@ -24,6 +24,8 @@ run() {
   if [ "$where" = SEEDDIR ]; then
     case "$id" in
       C06-b) go run ./SEED/demo 2>&1 | tail -3; return ${PIPESTATUS[0]};;
+      C07-d) go run -tags "$TAGS" ./SEED/demo 2>&1 | tail -3; return ${PIPESTATUS[0]};;
+      C19-d) go test -count=1 -tags "$TAGS" ./SEED/demo/ 2>&1 | tail -3; return ${PIPESTATUS[0]};;
       *) go test -count=1 -tags "$TAGS" ./SEED/ 2>&1 | tail -3; return ${PIPESTATUS[0]};;
     esac
   else
